@@ -32,6 +32,12 @@ func Replay(id, file string) int {
 		return 2
 	}
 	fmt.Printf("replaying %s: %s\n", v.Key, v.What)
+	var rr struct {
+		Race string `json:"race"`
+	}
+	if json.Unmarshal(v.Replay, &rr) == nil && rr.Race != "" {
+		return replayRace(id, rr.Race)
+	}
 	f, ok := Replayers[id]
 	if !ok {
 		chk, ok := Registry[id]
